@@ -85,6 +85,41 @@ def cp_arm_blocks(v):
     return cp - ss
 
 
+def check_result_fields(ctx, v, arm, rule, tag):
+    """Every SwapComputation built in `arm` carries in swap_fee_amount / protocol_fee_amount / burn_fee_amount the value
+    Fee::compute returned for the like-named pool_fees field, and return_amount is the gross amount minus all three."""
+    want = {"swap_fee", "protocol_fee", "burn_fee"}
+    sfx = "" if tag == "constant-product" else "|" + tag
+    found = False
+    for b in sorted(arm):
+        for i, s in enumerate(v.blocks[b]["s"]):
+            rv = s["rv"]
+            if rv["r"] == "agg" and rv.get("adt", "").endswith("::SwapComputation"):
+                found = True
+                f = dict(zip(rv["fields"], rv["ops"]))
+                for name, fee in (("swap_fee_amount", "swap_fee"), ("protocol_fee_amount", "protocol_fee"), ("burn_fee_amount", "burn_fee")):
+                    os_ = v.origins_of_operand(f[name], at=(b, i))
+                    okf = False
+                    for o in os_:
+                        c = call_of(v, o)
+                        if c and mname(c[1]).endswith("fee::Fee::compute"):
+                            r = v.origins_of_operand(c[1]["args"][0], at=v.at_term(c[0]))
+                            okf = bool(r) and all(x.kind == "param" and tuple(x.proj) == (fee,) for x in r)
+                    ctx.ob(rule, "%s|field|%s%s" % (CS, name, sfx), okf and len(os_) == 1, "SwapComputation.%s <- %s" % (name, sorted(map(repr, os_))), v.where(b))
+                ra = v.origins_of_operand(f["return_amount"], at=(b, i), taint=True)
+                subs = set()
+                for o in ra:
+                    c = call_of(v, o)
+                    if c and mname(c[1]).endswith("fee::Fee::compute"):
+                        r = v.origins_of_operand(c[1]["args"][0], at=v.at_term(c[0]))
+                        subs |= {x.proj[0] for x in r if x.kind == "param" and len(x.proj) == 1}
+                is_sub = all(o.kind == "call" and re.search(r"as std::ops::Sub>::sub$|checked_sub$", o.a) for o in v.origins_of_operand(f["return_amount"], at=(b, i)))
+                ctx.ob(rule, "%s|proceeds=gross-all-fees%s" % (CS, sfx), subs == want and is_sub,
+                       "return_amount is a subtraction chain: %s, subtracting fees %s" % (is_sub, sorted(subs)), v.where(b))
+    if not found:
+        ctx.missing(rule, "SwapComputation aggregate in the %s arm" % tag)
+
+
 def check_swap_wiring(ctx, model):
     """T3 (no free money, structural part): the executed swap and its simulation hand compute_swap the reserves the
     property speaks of -- the native offer is validated against the attached coins before any balance is read, each
@@ -92,7 +127,18 @@ def check_swap_wiring(ctx, model):
     consumer, and offer/ask reserves and decimals are selected by one direction table."""
     from .poolvalue import check_v2_v3_pool, check_fee_lookup_same_asset, check_raw_balance_single_consumer
     from .C14 import check_pair_directions
+    from .poolvalue import check_v1_pools
+    check_v1_pools(ctx, model, "terraswap_pair", "C02-T3")
     check_v2_v3_pool(ctx, model, "terraswap_pair", "C02-T3", fns=("swap",))
+    # T1's discharge reasons assume a fee triple summing below 100%: every path storing pool_fees validates the whole triple
+    from .C18 import validated_store
+    n = 0
+    for fn in ("terraswap_pair::contract::instantiate", "terraswap_pair::commands::update_config"):
+        w = ctx.view(fn, "C02-T3")
+        if w is not None:
+            n += validated_store(ctx, "C02-T3", w, "terraswap_pair::state::CONFIG", ("pool_fees",),
+                                 r"^white_whale_std::pool_network::pair::PoolFee::is_valid$", "PoolFee::is_valid")
+    ctx.floor("C02-T3", "paths storing pool_fees", n, 2)
     check_fee_lookup_same_asset(ctx, model, "terraswap_pair", "C02-T3")
     check_raw_balance_single_consumer(ctx, model, "terraswap_pair", "C02-T3")
     check_pair_directions(ctx, model, rule="C02-T3")
@@ -152,32 +198,4 @@ def run(ctx):
     same_gross = len({frozenset(x[1]) for x in fees.values()}) == 1 and all(x[1] for x in fees.values())
     ctx.ob("C02-T2", "%s|three-fees-on-one-gross" % CS, set(fees) == want and same_gross,
            "Fee::compute applied to pool_fees.%s; all on the same gross amount: %s" % (sorted(fees), same_gross), v.where())
-    # the returned struct
-    found = False
-    for b in sorted(arm):
-        for i, s in enumerate(v.blocks[b]["s"]):
-            rv = s["rv"]
-            if rv["r"] == "agg" and rv.get("adt", "").endswith("::SwapComputation"):
-                found = True
-                f = dict(zip(rv["fields"], rv["ops"]))
-                for name, fee in (("swap_fee_amount", "swap_fee"), ("protocol_fee_amount", "protocol_fee"), ("burn_fee_amount", "burn_fee")):
-                    os_ = v.origins_of_operand(f[name], at=(b, i))
-                    okf = False
-                    for o in os_:
-                        c = call_of(v, o)
-                        if c and mname(c[1]).endswith("fee::Fee::compute"):
-                            r = v.origins_of_operand(c[1]["args"][0], at=v.at_term(c[0]))
-                            okf = bool(r) and all(x.kind == "param" and tuple(x.proj) == (fee,) for x in r)
-                    ctx.ob("C02-T2", "%s|field|%s" % (CS, name), okf and len(os_) == 1, "SwapComputation.%s <- %s" % (name, sorted(map(repr, os_))), v.where(b))
-                ra = v.origins_of_operand(f["return_amount"], at=(b, i), taint=True)
-                subs = set()
-                for o in ra:
-                    c = call_of(v, o)
-                    if c and mname(c[1]).endswith("fee::Fee::compute"):
-                        r = v.origins_of_operand(c[1]["args"][0], at=v.at_term(c[0]))
-                        subs |= {x.proj[0] for x in r if x.kind == "param" and len(x.proj) == 1}
-                is_sub = all(o.kind == "call" and re.search(r"as std::ops::Sub>::sub$|checked_sub$", o.a) for o in v.origins_of_operand(f["return_amount"], at=(b, i)))
-                ctx.ob("C02-T2", "%s|proceeds=gross-all-fees" % CS, subs == want and is_sub,
-                       "return_amount is a subtraction chain: %s, subtracting fees %s" % (is_sub, sorted(subs)), v.where(b))
-    if not found:
-        ctx.missing("C02-T2", "SwapComputation aggregate in the constant-product arm")
+    check_result_fields(ctx, v, arm, "C02-T2", "constant-product")
